@@ -117,9 +117,21 @@ uint16_t gsm_freq102arfcn(uint16_t freq10, int uplink)
 }
 
 /* ------------------------------------------------- upper layer (recorded) */
+static int g_quiet;
+
 int trxcon_phyif_handle_burst_ind(void *priv, const struct trxcon_phyif_burst_ind *bi)
 {
 	unsigned int i;
+	if (g_quiet) {
+		/* fuzz mode: the semantic oracle lives here - only legal bursts may reach the scheduler,
+		 * and every soft bit must be readable (ASan checks the buffer) */
+		volatile int acc = 0;
+		if ((bi->burst_len != 148 && bi->burst_len != 444) || bi->fn >= 2715648u || bi->tn > 7)
+			__builtin_trap();
+		for (i = 0; i < bi->burst_len; i++)
+			acc += bi->burst[i];
+		return 0;
+	}
 	printf("BURST_IND %u %u %d %d %u ", bi->fn, bi->tn, bi->rssi, bi->toa256, bi->burst_len);
 	for (i = 0; i < bi->burst_len; i++)
 		printf("%02x", (uint8_t)bi->burst[i]);
@@ -129,12 +141,14 @@ int trxcon_phyif_handle_burst_ind(void *priv, const struct trxcon_phyif_burst_in
 
 int trxcon_phyif_handle_rts_ind(void *priv, const struct trxcon_phyif_rts_ind *rts)
 {
+	if (g_quiet) { if (rts->fn >= 2715648u || rts->tn > 7) __builtin_trap(); return 0; }
 	printf("RTS %u %u\n", rts->fn, rts->tn);
 	return 0;
 }
 
 int trxcon_phyif_handle_rsp(void *priv, const struct trxcon_phyif_rsp *rsp)
 {
+	if (g_quiet) return 0;
 	if (rsp->type == TRXCON_PHYIF_CMDT_MEASURE)
 		printf("RSP_MEASURE %u %d\n", rsp->param.measure.band_arfcn, rsp->param.measure.dbm);
 	else
@@ -216,6 +230,81 @@ static size_t unhex(const char *s, uint8_t *out, size_t max)
 	return n;
 }
 
+#ifdef FUZZ_TARGET
+/* libFuzzer entry: the input is a sequence of records  <op> <len_lo> <len_hi> <payload>:
+ *   op%4 == 0  enqueue one of trxcon's commands (payload selects it)   == 1  deliver payload to the CTRL callback
+ *   op%4 == 2  deliver payload to the DATA callback                     == 3  fire the retransmission timer */
+static void drain_quiet(int fd)
+{
+	uint8_t b[4096];
+	if (fd < 0) return;
+	while (recv(fd, b, sizeof(b), MSG_DONTWAIT) >= 0) { }
+}
+
+int LLVMFuzzerTestOneInput(const uint8_t *data, size_t size)
+{
+	size_t i = 0;
+	g_quiet = 1;
+	do_open();                      /* all state of the code under test is rebuilt for every input */
+	while (i + 3 <= size) {
+		uint8_t op = data[i];
+		size_t len = data[i + 1] | ((size_t)data[i + 2] << 8);
+		const uint8_t *pl = data + i + 3;
+		i += 3;
+		if (len > size - i) len = size - i;
+		i += len;
+		if (!trx) do_open();
+		switch (op % 4) {
+		case 0: {
+			struct trxcon_phyif_cmd cmd;
+			static uint16_t ma[64];
+			memset(&cmd, 0, sizeof(cmd));
+			uint8_t k = len > 0 ? pl[0] : 0, a1 = len > 1 ? pl[1] : 0, a2 = len > 2 ? pl[2] : 0;
+			switch (k % 8) {
+			case 0: cmd.type = TRXCON_PHYIF_CMDT_RESET; break;
+			case 1: cmd.type = TRXCON_PHYIF_CMDT_POWERON; break;
+			case 2: cmd.type = TRXCON_PHYIF_CMDT_POWEROFF; break;
+			case 3: cmd.type = TRXCON_PHYIF_CMDT_MEASURE; cmd.param.measure.band_arfcn = a1 | (a2 << 8); break;
+			case 4: cmd.type = TRXCON_PHYIF_CMDT_SETFREQ_H0; cmd.param.setfreq_h0.band_arfcn = a1 | (a2 << 8); break;
+			case 5: cmd.type = TRXCON_PHYIF_CMDT_SETSLOT; cmd.param.setslot.tn = a1 % 8; cmd.param.setslot.pchan = a2 % _GSM_PCHAN_MAX; break;
+			case 6: cmd.type = TRXCON_PHYIF_CMDT_SETTA; cmd.param.setta.ta = (int8_t)a1; break;
+			default: {
+				unsigned n = a1 % 65, j;
+				for (j = 0; j < n; j++) ma[j] = (a2 + j * 3) % 1024;
+				cmd.type = TRXCON_PHYIF_CMDT_SETFREQ_H1;
+				cmd.param.setfreq_h1.hsn = a2 % 64; cmd.param.setfreq_h1.maio = 0;
+				cmd.param.setfreq_h1.ma = ma; cmd.param.setfreq_h1.ma_len = n;
+			} }
+			trx_if_handle_phyif_cmd(trx, &cmd);
+			after_call();
+			break; }
+		case 1:
+			drain_quiet(peer_ctrl);
+			if (send(peer_ctrl, pl, len, 0) >= 0) {
+				trx->trx_ofd_ctrl.cb(&trx->trx_ofd_ctrl, OSMO_FD_READ);
+				after_call();
+			}
+			break;
+		case 2:
+			if (send(peer_data, pl, len, 0) >= 0) {
+				trx->trx_ofd_data.cb(&trx->trx_ofd_data, OSMO_FD_READ);
+				after_call();
+			}
+			break;
+		default:
+			if (trx->trx_ctrl_timer.active && trx->trx_ctrl_timer.cb) {
+				trx->trx_ctrl_timer.active = 0;
+				trx->trx_ctrl_timer.cb(trx->trx_ctrl_timer.data);
+				after_call();
+			}
+		}
+		drain_quiet(peer_ctrl);
+		drain_quiet(peer_data);
+	}
+	if (trx) { trx_if_close(trx); trx = NULL; }
+	return 0;
+}
+#else
 int main(void)
 {
 	static char line[70000];
@@ -315,3 +404,4 @@ int main(void)
 	}
 	return 0;
 }
+#endif
